@@ -83,6 +83,8 @@ func CatalogSpecs(seed int64) []Func {
 					if r.P(0.3) {
 						ps[i].Hidden = -1
 					}
+				} else if r.P(0.12) {
+					ps[i].AnonVal = 1 + r.Intn(NumK)
 				}
 				hide(ps[i].Fields)
 			}
@@ -122,7 +124,10 @@ func (w *catWriter) paramGoType(fn int, p Param, path string) string {
 	}
 	name := fmt.Sprintf("CatIn%d_%s", fn, path)
 	var sb strings.Builder
-	if p.Hidden < 0 {
+	if p.AnonVal > 0 {
+		// an anonymous plain struct in front of the dig.In embed
+		fmt.Fprintf(&sb, "type %s struct {\n\tV%d `optional:\"true\"`\n\tdig.In\n", name, p.AnonVal-1)
+	} else if p.Hidden < 0 {
 		// the unexported field is declared before the dig.In embed
 		fmt.Fprintf(&sb, "type %s struct {\n\thiddenFirst *K0\n\tdig.In `ignore-unexported:\"true\"`\n", name)
 	} else if p.Hidden > 0 {
